@@ -237,6 +237,23 @@ func (e *Engine) initOnlyScan(names []string) (checked int, bad []string) {
 	for _, n := range names {
 		set[n] = true
 	}
+	// every other package-level variable of the packages under contract is
+	// held to the same rule: a variable added later is covered without being
+	// named in a contract
+	for pk, isT := range e.target {
+		if !isT {
+			continue
+		}
+		sp := e.prog.Package(pk)
+		if sp == nil {
+			continue
+		}
+		for mn, m := range sp.Members {
+			if _, ok := m.(*ssa.Global); ok && !strings.HasPrefix(mn, "init$") {
+				set[mn] = true
+			}
+		}
+	}
 	isInitGlobalLoad := func(v ssa.Value) (string, bool) {
 		if u, ok := v.(*ssa.UnOp); ok && u.Op == token.MUL {
 			if g, ok := u.X.(*ssa.Global); ok && set[g.Name()] && g.Pkg != nil && e.target[g.Pkg.Pkg] {
@@ -362,6 +379,26 @@ func (e *Engine) initOnlyScan(names []string) (checked int, bad []string) {
 				case *ssa.Store:
 					if g, ok := x.Addr.(*ssa.Global); ok && set[g.Name()] && e.target[g.Pkg.Pkg] {
 						bad = append(bad, fmt.Sprintf("%s assigns %s (%s)", k, g.Name(), e.pos(x.Pos())))
+					}
+					// a field of a global struct, an element of a global array or
+					// of the slice a global holds
+					addr := x.Addr
+					for depth := 0; depth < 4; depth++ {
+						switch a := addr.(type) {
+						case *ssa.FieldAddr:
+							addr = a.X
+							continue
+						case *ssa.IndexAddr:
+							if n, ok := isInitGlobalLoad(a.X); ok {
+								bad = append(bad, fmt.Sprintf("%s writes an element of %s (%s)", k, n, e.pos(x.Pos())))
+							}
+							addr = a.X
+							continue
+						}
+						break
+					}
+					if g, ok := addr.(*ssa.Global); ok && addr != x.Addr && set[g.Name()] && e.target[g.Pkg.Pkg] {
+						bad = append(bad, fmt.Sprintf("%s writes inside %s (%s)", k, g.Name(), e.pos(x.Pos())))
 					}
 				case *ssa.MapUpdate:
 					if n, ok := isInitGlobalLoad(x.Map); ok {
